@@ -15,7 +15,11 @@ CONSTANTS
   ConvDT = {"f8", "f4", "i2", "u2", "i4", "u4", "i8"}
   MixP = {"", "Y", "Z", "E", "P", "T", "G", "M", "k", "h", "da", "d", "c", "m", "u", "n", "p", "f", "a", "z", "y", "micro_sign", "micro_mu"}
   MixOps = {"add", "subtract", "maximum", "minimum", "less", "greater", "less_equal", "greater_equal", "equal", "not_equal"}
-  Fams = {"conv", "bin", "red", "ref", "chain", "mix"}
+  RefFreeP = {"", "M", "k", "h", "da", "d", "c", "m", "u"}
+  PredP = {"", "m", "k", "c", "M"}
+  PredShapes = {"v1", "v2", "v3", "v4", "g12", "g21", "g22", "g23", "g32", "g13", "g31"}
+  PredForms = {"function", "axnone", "ax0", "ax1", "axm1", "axm2", "axt01", "ax0k", "ax1k", "axm1k", "axnonek"}
+  Fams = {"conv", "bin", "red", "ref", "pred", "chain", "mix"}
 INIT Init
 NEXT Next
 INVARIANT Export
